@@ -145,8 +145,14 @@ func (C11) Gen(r *simrt.RNG, tier string) core.Case {
 		if r.Chance(1, 3) {
 			t.In = nil // nothing to resolve: the memo is all there is to consult
 		}
+		onceTargetFails := t.HasErr && r.Chance(1, 5)
 		w.Parties = append(w.Parties, t)
 		ti := len(w.Parties) - 1
+		if onceTargetFails {
+			// its single execution fails: every later use, direct or through a redefined
+			// function, reports that error
+			w.Faults = append(w.Faults, world.Fault{Kind: "conv_error", Party: ti, Nth: 1})
+		}
 		base := w.Ops[0].Args
 		n := 2 + r.Intn(3)
 		if len(t.In) > 0 && r.Chance(1, 4) {
@@ -303,6 +309,30 @@ func (C11) Run(c core.Case, ctx *core.Ctx) []core.Violation {
 			}
 			if firstErr != nil {
 				ctx.St.Inc("c11_first_exec_failed")
+				// uses of a run-once *target* after its failed execution report that error
+				failedAt := -1
+				for _, rec := range rt.Log {
+					if rec.Party == pi && rec.N == 1 {
+						failedAt = rec.Op
+					}
+				}
+				for oi, res := range rt.Results {
+					if res == nil || !res.Returned || oi <= failedAt || w.Threads > 1 {
+						continue
+					}
+					tgt := -1
+					switch w.Ops[oi].Kind {
+					case world.OpCall:
+						tgt = w.Ops[oi].Target
+					case world.OpCallRedef:
+						if res.ErrKind != "skipped" {
+							tgt = w.Ops[w.Ops[oi].Redef].Target
+						}
+					}
+					if tgt == pi && res.Err == nil {
+						add("once-error-not-replayed", opSite(w.Ops[oi].Kind), fmt.Sprintf("schedule %d op %d: the single execution of run-once target %d failed with %q, this later use reports success", k, oi, pi, firstErr.Error()))
+					}
+				}
 				for oi, res := range rt.Results {
 					if res == nil || !res.Returned || res.ErrKind != "injected" {
 						continue
@@ -315,6 +345,16 @@ func (C11) Run(c core.Case, ctx *core.Ctx) []core.Violation {
 						}
 					}
 					if ownFailure {
+						continue
+					}
+					// (the memoised failure of another run-once party is as good an answer)
+					otherOnce := false
+					for _, rec := range rt.Log {
+						if rec.N == 1 && rec.Err != nil && rec.Party != pi && rt.Parties[rec.Party].Once && error(rec.Err) == res.Err {
+							otherOnce = true
+						}
+					}
+					if otherOnce {
 						continue
 					}
 					if res.Err != error(firstErr) {
